@@ -1,13 +1,17 @@
 #!/usr/bin/env python3
-"""store a confirmed seeded change: seed_store.py <PROP> <n> <worktree>"""
+"""store a confirmed seeded change: seed_store.py <PROP> <n> <worktree> [<n_dst>]  (confirm.log is read from <worktree>/OUT/<n>/ or build/seedconf)"""
 import json, os, shutil, sys, re
 pid, n, wt = sys.argv[1], sys.argv[2], sys.argv[3]
 src = os.path.join(wt, 'OUT', n)
-dst = '/verif/seeded/%s-%s' % (pid, n)
+ndst = sys.argv[4] if len(sys.argv) > 4 else n
+dst = '/verif/seeded/%s-%s' % (pid, ndst)
 os.makedirs(dst, exist_ok=True)
 for f in ('patch.diff', 'demo.sh', 'notes.md'):
     shutil.copy(os.path.join(src, f), os.path.join(dst, f))
-conf = open('/verif/build/seedconf/%s-%s/confirm.log' % (pid, n)).read().strip().split('\n')
+cl = os.path.join(src, 'confirm.log')
+if not os.path.exists(cl):
+    cl = '/verif/build/seedconf/%s-%s/confirm.log' % (pid, n)
+conf = open(cl).read().strip().split('\n')
 notes = open(os.path.join(src, 'notes.md')).read()
 meta = {
     'property': pid,
